@@ -352,7 +352,8 @@ def run(ctx):
                     for eb in e2:
                         cases.append(([(".", a, ea), (sep, b, eb)], False))
     for _ in range(ctx.n(3000, 300000)):
-        fs = [rand_factor(rng, i == 0) for i in range(3)]
+        # 3-factor strings: 2/3 consistent (accepted), 1/3 unconstrained (mostly two units of one kind)
+        fs = rand_valid(rng, 3) if rng.random() < 0.67 else [rand_factor(rng, i == 0) for i in range(3)]
         cases.append((fs, rng.random() < 0.2))
     # the same meaning written differently: a/b <-> a.b-1 and permutations (both members go through the oracle)
     variants = []
